@@ -186,6 +186,58 @@ theorem eof_iff_clean_close (c : CodecFns) (h : Header) (wops : List (Op Byte)) 
         rw [hf, hasEOF_append_marker] at this
         cases this
 
+/-! ### a writer that is never closed -/
+
+/-- what the emitter has handed to the underlying writer once it is at rest, for a script without Close: the
+members of the queued blocks up to the first refused one (the active block is still held by the writer) -/
+def openOutput (c : CodecFns) (h : Header) (wops : List (Op Byte)) : List Byte :=
+  (render c h (after wops).emitted).1
+
+/-- A writer that is never closed: for every script without a Close, what has reached the underlying writer
+is a series of RFC 1952 members, each satisfying the BGZF constraints, whose payloads are the written blocks
+(each of 1..BlockSize bytes, a prefix of the accepted data); there is NO EOF marker: `HasEOF` is false and the
+stream does not end with the 28 marker bytes. -/
+theorem open_stream (c : Codec) (h : Header) (hx : WFExtra h) (wops : List (Op Byte)) (hopen : hasClose wops = false) :
+    (∃ Ms, Rfc1952.parseMembers (ext c.toCodecFns) (openOutput c.toCodecFns h wops) = some Ms ∧
+      (∀ M ∈ Ms, Rfc1952.IsBgzf M) ∧ Ms.map (·.data) = writtenBlocks c.toCodecFns h wops ∧
+      (∀ p ∈ writtenBlocks c.toCodecFns h wops, 1 ≤ p.length ∧ p.length ≤ BlockSize) ∧
+      ∃ rest, (writtenBlocks c.toCodecFns h wops).flatten ++ rest = accepted wops) ∧
+    hasEOF (openOutput c.toCodecFns h wops) = false ∧
+    ¬ ∃ front, openOutput c.toCodecFns h wops = front ++ magicBlock := by
+  have hcl : (after wops).closed = false := by rw [BgzfWriter.after_closed, hopen]
+  have hblocks := (BgzfWriter.after_inv wops).open_blocks hcl
+  have hfits := written_fits c.toCodecFns h (after wops).emitted
+  have hsub := writtenBlocks_sub c.toCodecFns h wops
+  have hwb : ∀ p ∈ writtenBlocks c.toCodecFns h wops, 1 ≤ p.length ∧ p.length ≤ BlockSize :=
+    fun p hp => hblocks p (hsub p hp)
+  have hout : openOutput c.toCodecFns h wops = ((writtenBlocks c.toCodecFns h wops).map (mb c.toCodecFns h)).flatten := by
+    simp only [openOutput, render_fst, writtenBlocks]
+  have hno : hasEOF (openOutput c.toCodecFns h wops) = false := by
+    rw [hout]
+    apply hasEOF_members
+    intro p hp
+    have := hwb p hp
+    simp [BlockSize] at this
+    omega
+  refine ⟨?_, hno, ?_⟩
+  · have hpm := parseMembers_rendered c h (writtenBlocks c.toCodecFns h wops) hfits false
+    simp only [Bool.false_eq_true, if_false, List.append_nil] at hpm
+    rw [hout]
+    refine ⟨_, hpm, ?_, ?_, hwb, ?_⟩
+    · intro M hM
+      obtain ⟨p, hp, rfl⟩ := List.mem_map.mp hM
+      exact isBgzf_specMember c.toCodecFns h p hx (hfits p hp).2 (hwb p hp).2
+    · simp [specMember, Function.comp_def]
+    · obtain ⟨r, hr⟩ := written_prefix c.toCodecFns h (after wops).emitted
+      have hheld := BgzfWriter.after_held wops
+      refine ⟨r.flatten ++ (after wops).active, ?_⟩
+      rw [← hheld]
+      conv => rhs; rw [hr]
+      simp [writtenBlocks]
+  · rintro ⟨front, hf⟩
+    rw [hf, hasEOF_append_marker] at hno
+    cases hno
+
 /-- With the writer's default header and a codec within zlib's deflateBound, Close returns nil for every
 script: no block is ever refused (the role of `compressBound(BlockSize) ≤ MaxBlockSize`, bgzf.go:36-44). -/
 theorem default_header_clean_close (c : CodecFns) (hb : Bounded c) (wops : List (Op Byte)) (hclose : hasClose wops = true) :
@@ -264,5 +316,9 @@ example : ∃ c : Codec, Bounded c.toCodecFns := ⟨Toy.codec, Toy.bounded⟩
 example := stream_conformant Toy.codec { name := [0x66], extra := [88, 89, 1, 0, 7], mtime := 0x00024342 }
   (by simp only [WFExtra]; rw [Rfc1952.subfields]; simp [Rfc1952.le16, Rfc1952.subfields])
   [Op.write [1, 2, 3], Op.flush, Op.write [4], Op.close] rfl
+
+/-- an instance of `open_stream`: a script with Flush but no Close -/
+example := open_stream Toy.codec {} (by simp only [WFExtra]; rw [Rfc1952.subfields]; rfl)
+  [Op.write [1, 2, 3], Op.flush, Op.write [4]] rfl
 
 end Hts.Props.C08
